@@ -123,6 +123,42 @@ def pre_removal(ctx, rule='A14p'):
            'position of the selected option in constraint.options (the coordinates the relations refer to)', '')
 
 
+def removal_always_applied(ctx, rule='A14p'):
+    """Taking a constrained choice always evaluates the option removal of its constraint: the only ways out of
+    `_get_removed_constrained_selection_choices` without calling get_constraint_removed_options are 'the choice is not
+    constrained' / 'no option given' (and errors).  A shortcut for some situations (one option left, ...) lets the
+    other choices of the constraint keep options the relation forbids."""
+    fn = ctx.fn(f'{DSG}._get_removed_constrained_selection_choices')
+    cfg = build_cfg(fn)
+    cons = [s for s in walk_fn(fn) if isinstance(s, ast.Assign) and isinstance(s.value, ast.Call) and
+            call_name(s.value) == 'is_constrained_choice']
+    if not cons:
+        raise AnalysisError('_get_removed_constrained_selection_choices: constraint look-up not found')
+    cname = norm(cons[0].targets[0])
+    opt = fn.params[2]
+    through = guards.call_nodes(cfg, 'get_constraint_removed_options')
+    if not through:
+        raise AnalysisError('_get_removed_constrained_selection_choices: removal evaluation not found')
+    def allowed(a, t):
+        return guards.none_fact(cname, True)(a, t) or guards.none_fact(opt, True)(a, t)
+    exempt = set(cfg.edges_implying(allowed))
+    for nd in cfg.nodes:        # `A or B` with only allowed disjuncts: its true edge is exempt as well
+        if nd.kind == 'test' and isinstance(nd.ast, ast.BoolOp) and isinstance(nd.ast.op, ast.Or) and \
+                all(allowed(v, True) for v in nd.ast.values):
+            exempt |= {(nd.id, m.id, lab) for m, lab in nd.succ if lab == 'T'}
+        if nd.kind == 'test' and isinstance(nd.ast, ast.BoolOp) and isinstance(nd.ast.op, ast.And) and \
+                all(allowed(v, False) for v in nd.ast.values):
+            exempt |= {(nd.id, m.id, lab) for m, lab in nd.succ if lab == 'F'}
+    reach = cfg.reachable([cfg.entry], blocked_nodes=through, blocked_edges=exempt, labels_excluded=('exc',))
+    rets = [r for r in guards.return_nodes(cfg) if r.id in reach]
+    p = cfg.find_path(cfg.entry, rets[0], blocked_nodes=through, blocked_edges=exempt, labels_excluded=('exc',)) \
+        if rets else None
+    ctx.ob(rule, fkey(fn, rule, 'removal-evaluated-unless-unconstrained'), not rets, fn.where,
+           'every normal return passes get_constraint_removed_options, except where the choice is known to be '
+           'unconstrained or no option was given', 'all returns pass the evaluation' if not rets else
+           f'return at L{rets[0].lineno} skips it: {guards.path_text(p) if p else ""}')
+
+
 def order_flow(ctx, rule='A15'):
     fn = ctx.fn(f'{COMPLETE}._reduced_selection_choice_scenarios')
     loops = [s for s in walk_fn(fn) if isinstance(s, ast.For) and 'get_choice_constraints()' in norm(s.iter)]
@@ -201,11 +237,14 @@ def check(ctx):
     ctx.floor('A16', 40, 'regions of correct_value (fraction handed to linked variables)')
     ctx.floor('A14', 12, 'relation instances')
     ctx.floor('A7', 6, 'dispatch chains')
+    removal_always_applied(ctx)
 
 
 from ..selftest import V  # noqa: E402
 
 VARIANTS = [
+    V('forced-choice-skips-removal', 'graph/adsg.py',
+      [("        # Get index of decision and chosen option node\n        for i_dec, dec_node in enumerate(choice_constraint.nodes):", "        if len(self.get_option_nodes(sel_choice_node)) <= 1:\n            return []\n\n        # Get index of decision and chosen option node\n        for i_dec, dec_node in enumerate(choice_constraint.nodes):")], key='removal-evaluated-unless-unconstrained'),
     V('unordered-slice-shift', 'graph/choice_constraints.py',
       [("                removed_opts = options[:i_chosen_option]  # Subsequent cannot have lower-index options", "                removed_opts = options[:i_chosen_option+1]  # Subsequent cannot have lower-index options")],
       key='removal:UNORDERED'),
